@@ -511,6 +511,13 @@ func randRecord(rng *rand.Rand, used map[string]bool) record {
 			continue
 		}
 		r.port = 1 + rng.Intn(65535)
+		if rng.Intn(3) == 0 {
+			// a small pool of addresses that come back case after case with different contents: the harness process keeps ONE
+			// browser handler for all its cases, as the component does for all its connections; a server that goes away
+			// and registers again at the same address (its version counter restarts) must be listed with its current values
+			r.ip = [4]byte{1, 1, 1, byte(1 + rng.Intn(4))}
+			r.port = 10480 + 100*rng.Intn(2)
+		}
 		key := fmt.Sprintf("%v:%d", r.ip, r.port)
 		if !used[key] {
 			used[key] = true
